@@ -102,6 +102,28 @@ def diff_states(obs, want, tex_superset=False):
     return diffs
 
 
+def purge_tolerance(w, lab, st1, an1, post):
+    """No listed property says that an EMPTIED trash directory must stay: a real purge (trash-rm, or trash-empty that is
+    neither a dry run nor declined) may remove the whole skeleton (dir, files/, info/) of a trash directory that holds
+    nothing afterwards.  Such a directory is then counted as existing-and-empty."""
+    if lab['cmd'] not in ('empty', 'rm'):
+        return st1, an1
+    if lab['cmd'] == 'empty' and (lab['opts']['dry'] or lab['opts']['consent'] == 'no'):
+        return st1, an1
+    holds = lambda st, t: any(x.get('t') == t for k in ('items', 'orph', 'strays', 'junk') for x in st[k])
+    gone = [t for t in post['tex'] if t not in st1['tex'] and not holds(post, t) and not holds(st1, t)]
+    if not gone:
+        return st1, an1
+    rootb = os.fsencode(w.root)
+    skel = set()
+    for t in gone:
+        tp = os.fsencode(w.tpath_real(t))[len(rootb) + 1:]
+        skel |= {repr(tp), repr(tp + b'/files'), repr(tp + b'/info')}
+    an = [a for a in an1 if not (a.startswith('outside entry vanished: ') and a[len('outside entry vanished: '):] in skel)]
+    w.virtual_tex |= set(gone)
+    return dict(st1, tex=list(st1['tex']) + gone), an
+
+
 def run_group(g, seed, opts=None):
     """materialise, run, project, compare.  -> result dict (JSON-able)"""
     opts = opts or {}
@@ -127,6 +149,7 @@ def run_group(g, seed, opts=None):
             kw['tty'] = True
         obs, raw = r.run(g['lab'], g['pre'], slots=sl0, **kw)
         st1, an1, sl1 = w.project()
+        st1, an1 = purge_tolerance(w, g['lab'], st1, an1, g['allowed'][0]['post'])
         if opts.get('gate_only'):
             # only WHERE the entry went is judged (which trash directory, or nowhere), not what its Path= line says
             slim = lambda st: dict(st, items=[{'t': i['t'], 'o': i['o'], 'date': i['date']} for i in st['items']])
@@ -281,6 +304,7 @@ def run_behaviour(beh, seed, opts=None):
                     step = dict(step, lab=lab)
             obs, raw = r.run(lab, prev, slots=slots)
             st1, an1, slots = w.project()
+            st1, an1 = purge_tolerance(w, lab, st1, an1, step['post'])
             diffs = diff_states(st1, step['post'], tex_superset=(lab['cmd'] == 'put')) + an1
             if lab['cmd'] in ('put', 'list', 'restore', 'empty', 'rm'):
                 diffs += out_matches(lab['cmd'], obs, lab)
